@@ -19,7 +19,7 @@ pub fn run(ctx: &Ctx) -> CheckResult {
     let scal_ops = s_ops(&scal);
     let bar_ops = b_ops(&b_grid());
     let singles = [1usize, 2, 3, 5, 14, 1024];
-    let mults: Vec<f64> = if th { vec![2.0, 0.0, 0.5, 3.0, -1.0, 1e6] } else { vec![2.0, 0.0, 0.5, 3.0] };
+    let mults: Vec<f64> = if th { vec![2.0, 0.0, 0.5, 3.0, 2.618, 0.1, -1.0, 1e6] } else { vec![2.0, 0.0, 0.5, 3.0, 2.618, 0.1] };
     let mut spaces = vec![];
     // TrueRange has no parameter
     spaces.push(Space { cfg: Cfg::p0(Kind::Tr), alphabet: with_reset(scal_ops.clone()), depth: d, label: "scalar" });
@@ -199,6 +199,63 @@ pub fn run(ctx: &Ctx) -> CheckResult {
             res.absorb(o);
         }
     }
+    // 2^32 + 16 calls on ONE EMA instance (a call counter in a 32-bit type wraps there): alternating +1 / -1,
+    // every single step checked against alpha*x + (1-alpha)*(the real previous output).  A step that deviates
+    // by more than 2*tau(t)*M from that has left the statement's band around the exact recursion at this step
+    // or the one before (|err_t| >= delta - (1-alpha)|err_{t-1}|).
+    let mut wrap_steps = 0u64;
+    if !res.out.failed() {
+        use ta::Next;
+        let periods: Vec<usize> = if th { vec![20, 200, 3] } else { vec![20] };
+        let outs = par_run(ctx, &periods, |_, &n| {
+            let mut out = JobOut::default();
+            let cfg = Cfg::p1(Kind::Ema, n);
+            let total: u64 = (1u64 << 32) + 16;
+            let r = std::panic::catch_unwind(|| {
+                let mut e = ta::indicators::ExponentialMovingAverage::new(n).unwrap();
+                let a = 2.0 / (n as f64 + 1.0);
+                let mut prev = 0.0f64;
+                let mut bad: Option<(u64, f64, f64, f64)> = None;
+                for t in 0..total {
+                    let x = if t & 1 == 0 { 1.0 } else { -1.0 };
+                    let o = e.next(x);
+                    let want = if t == 0 { x } else { a * x + (1.0 - a) * prev };
+                    let tf = (t + 1) as f64;
+                    let tol = 2.0 * (1e-12 + 1e-15 * tf * tf.sqrt());
+                    if !((o - want).abs() <= tol) {
+                        bad = Some((t, o, want, prev));
+                        break;
+                    }
+                    prev = o;
+                }
+                bad
+            });
+            out.stats.traces += 1;
+            out.stats.transitions += total;
+            out.stats.states += total;
+            out.stats.evaluations += total;
+            out.stats.nontrivial += total;
+            match r {
+                Ok(None) => {}
+                Ok(Some((t, o, want, prev))) => {
+                    let x = if t & 1 == 0 { 1.0 } else { -1.0 };
+                    out.fail(
+                        Violation::new(PROP, &cfg, &[Op::S(prev), Op::S(x)], "recursion-step")
+                            .obs(format!("[{}]", f2s(o)))
+                            .exp(format!("[{}]", f2s(want)))
+                            .det(format!("call number {} (1-based) of one instance fed +1, -1, +1, ...: the output is not alpha*x + (1-alpha)*previous output ({}); ops shown = previous output and this input", t + 1, f2s(prev)))
+                            .with("generator", format!("alternating +1/-1, failing call {}", t + 1)),
+                    );
+                }
+                Err(_) => out.fail(Violation::new(PROP, &cfg, &[], "panic").obs("panic".into()).exp("outputs".into())),
+            }
+            out
+        });
+        let m = merge_jobs(outs);
+        wrap_steps = m.stats.transitions;
+        res.absorb(m);
+    }
+    res.extra.insert("ema_single_instance_calls_checked_stepwise".into(), json!(wrap_steps));
     // Default::default() instances against the reference for the parameters they report
     if !res.out.failed() {
         let mut o = JobOut::default();
